@@ -99,11 +99,11 @@ def run(res, tier):
                 samples.append(desc)
     # badly scaled data: the solver may fail numerically.  A fit that completes must still not silently return the
     # all-zero matrix when a strictly feasible model exists (a fit that raises is a refusal, not a result)
-    for h in range(3 if tier == 'quick' else 12):
+    for h in range(9 if tier == 'quick' else 36):
         ns = 2; nu = 1
-        X, _, _ = lmi.linear_data(rng, ns, nu, kind='stable')
+        X, _, _ = lmi.linear_data(np.random.default_rng(h // 3), ns, nu, kind='stable')
         Xs = np.array(X, copy=True)
-        Xs[:, 1:1 + ns] *= [30.0, 50.0, 100.0][h % 3]
+        Xs[:, 1:1 + ns] *= [50.0, 100.0, 300.0][h % 3]
         g = 2.0
         Xi = np.block([[np.eye(ns) / g, np.zeros((ns, nu))], [np.zeros((nu, ns)), -g * np.eye(nu)]])
         try:
